@@ -1,14 +1,18 @@
 import Tengo.Sexp
 import Tengo.Drivers.Echo
+import Tengo.Drivers.C0507
 import Tengo.Drivers.C03
+import Tengo.Drivers.C13
 import Tengo.Drivers.C09
 import Tengo.Drivers.C02
+import Tengo.Drivers.C01
 import Tengo.Drivers.C12
 import Tengo.Drivers.C17
 import Tengo.Drivers.C18
 import Tengo.Drivers.C19
 import Tengo.Drivers.C10
 import Tengo.Drivers.C20
+import Tengo.Drivers.C15
 /-!
 Line-protocol driver: one S-expression `(cmd arg…)` per input line, one answer
 line per input line. The only `partial def` of the project is the IO loop.
@@ -17,15 +21,19 @@ open Tengo
 
 def allHandlers : List (String × (List Sexp → String)) :=
   Tengo.Drivers.Echo.handlers ++
+  Tengo.Drivers.C0507.handlers ++
   Tengo.Drivers.C03.handlers ++
+  Tengo.Drivers.C13.handlers ++
   Tengo.Drivers.C09.handlers ++
   Tengo.Drivers.C02.handlers ++
+  Tengo.Drivers.C01.handlers ++
   Tengo.Drivers.C12.handlers ++
   Tengo.Drivers.C17.handlers ++
   Tengo.Drivers.C18.handlers ++
   Tengo.Drivers.C19.handlers ++
   Tengo.Drivers.C10.handlers ++
-  Tengo.Drivers.C20.handlers
+  Tengo.Drivers.C20.handlers ++
+  Tengo.Drivers.C15.handlers
 
 def answer (line : String) : String :=
   match Sexp.parse line with
